@@ -33,7 +33,7 @@ def compute(res, **kw):
     return res.compute(**kw) if hasattr(res, "compute") else res
 
 
-def make_world(rng, nf=None, nd=None):
+def make_world(rng, nf=None, nd=None, degenerate=False):
     import xarray as xr
 
     nextra = rng.choice([1, 1, 2])
@@ -51,8 +51,20 @@ def make_world(rng, nf=None, nd=None):
             vals = np.arange(n, dtype=float)
         extra.append((nme, vals))
     npos = int(np.prod(shape))
-    E = np.array([gen.gen_spectrum(rng, nf, nd, kind=rng.choice(["blobs", "blobs", "noisy", "sparse"]))[0] + 0.0078125
-                  for _ in range(npos)]).reshape(tuple(shape) + (nf, nd))
+    Es = [gen.gen_spectrum(rng, nf, nd, kind=rng.choice(["blobs", "blobs", "noisy", "sparse"]))[0] + 0.0078125 for _ in range(npos)]
+    if degenerate:
+        # degenerate members (where statistics fall back to a documented value / NaN): all-zero, all energy in one frequency
+        # bin, a single non-zero bin
+        for _ in range(max(1, npos // 2)):
+            k = rng.randrange(npos)
+            Z = np.zeros((nf, nd))
+            mode = rng.choice(["zero", "onefreq", "onebin"])
+            if mode == "onefreq":
+                Z[rng.randrange(nf), :] = [rng.choice([1.0, 2.0, 0.5]) for _ in range(nd)]
+            elif mode == "onebin":
+                Z[rng.randrange(nf), rng.randrange(nd)] = 4.0
+            Es[k] = Z
+    E = np.array(Es).reshape(tuple(shape) + (nf, nd))
     da = gen.make_da(freq, dirs, E, extra=extra, dtype=rng.choice(["float64", "float64", "float32"]))
     if rng.random() < 0.4:
         # other storage orders, including dir stored before freq and spectral dims first
@@ -97,9 +109,10 @@ def make_case(args):
     import_ws()
     import dask
 
-    C = opcat.catalogue()
+    C = opcat.catalogue(include_hp01=True)
     out = []
-    da, aux = make_world(rng)
+    degenerate = rng.random() < 0.3
+    da, aux = make_world(rng, degenerate=degenerate)
     force = rng.random() < 0.6
     ch = random_chunks(rng, da, force)
     sched = rng.choice(["synchronous", "threads", "threads", "threads"])
@@ -109,7 +122,11 @@ def make_case(args):
         kw["num_workers"] = nw
     dch = da.chunk(ch)
     auxch = {k: v.chunk({d: ch[d] for d in v.dims}) if rng.random() < 0.5 else v for k, v in aux.items()}
-    for op in rng.sample(sorted(C), 5) + [rng.choice(sorted(opcat.WATERSHED))]:
+    ops = rng.sample(sorted(C), 5) + [rng.choice(sorted(opcat.WATERSHED))]
+    if degenerate:
+        # operations with a fallback / mask branch
+        ops = rng.sample(["swe", "sw", "gw", "goda", "tp", "dpm", "dpspr", "alpha", "gamma", "dspr", "tm01", "stats", "scale_by_hs"], 4) + ops[3:]
+    for op in ops:
         rec = dict(op=op, icase=icase, chunks={k: (v if not isinstance(v, tuple) else list(v)) for k, v in ch.items()}, scheduler=sched,
                    workers=nw, dims=list(da.dims), shape=[int(da.sizes[d]) for d in da.dims],
                    spectral_split=bool(ch.get("freq", -1) != -1 or ch.get("dir", -1) != -1))
